@@ -1,6 +1,7 @@
 import PartituraModel.Wire
 import PartituraModel.Model.Kern
 import PartituraModel.Model.KernPbv
+import PartituraModel.Model.KernDur
 import PartituraModel.Model.Mei
 import PartituraModel.Model.MeiAccept
 import PartituraModel.Model.KernWrite
@@ -227,6 +228,11 @@ def handle (ts : List String) : String :=
   | "kval" :: rest =>
     orErr <| (run (do let r ← str; let d ← nat; pure (r, d)) rest).bind fun (r, d) =>
       ((Kern.parseRecip r.toList).bind fun rc => Kern.value rc d).map fmtRat
+  | "kdur" :: rest =>
+    -- element_parsing's duration arithmetic: start positions of the tokens (reciprocal, dots) of one spine in divisions
+    orErr <| (run (do let dv ← nat; let l ← list (do let r ← str; let d ← nat; pure (r, d)); pure (dv, l)) rest).bind fun (dv, l) =>
+      (l.mapM fun (rd : String × Nat) => (Kern.parseRecip rd.1.toList).map fun rc => (rc, rd.2)).bind fun toks =>
+        (KernDur.spinePositions dv 0 toks).map fun (ps, e) => fmtTuple [fmtList fmtInt ps, fmtInt e]
   | "kpitch" :: rest =>
     orErr <| (run str rest).bind fun s =>
       (Kern.parseSub ('4' :: s.toList)).bind fun t =>
